@@ -16,6 +16,7 @@
   image-bounds  WcsSampler._image_bounds with an affine (plate-carree, CAR) WCS of SYMBOLIC coefficients: the returned
                 box contains the whole image footprint (every image size in the stated set).
 """
+from vlib.core import soft_attr as core_u
 import math
 import os
 import time
@@ -546,8 +547,8 @@ def check(run):
     tier = run.tier
     depth = DEPTH[tier]
     mod, _py = decy.load()
-    run.uses("toasty/_libtoasty.pyx:_tile_intersects_latlon_bbox (decythonised)", "toasty/_libtoasty.pyx:_order_pair_1d (decythonised)", tsm._latlon_tile_filter,
-             tt._div4, tt._create_level1_tiles, tt.toast_tile_get_coords)
+    run.uses("toasty/_libtoasty.pyx:_tile_intersects_latlon_bbox (decythonised)", "toasty/_libtoasty.pyx:_order_pair_1d (decythonised)", core_u(tsm, "_latlon_tile_filter"),
+             core_u(tt, "_div4"), core_u(tt, "_create_level1_tiles"), tt.toast_tile_get_coords)
     val = decy.validate(mod, seed=run.seed)
     run.ob("decythonised-module-matches-compiled-extension", "confirmed" if val["bbox_disagreements"] == 0 else "inconclusive", "E4:translation-validation",
            "%s (the compiled extension cannot be rebuilt here: no Cython; a disagreement means the .so is stale w.r.t. the .pyx)" % val)
